@@ -316,6 +316,9 @@ func (c20) Run(t *testing.T, tape *core.Tape, rcx *RunCtx) *core.Result {
 			k = 4 + tape.Draw(17)
 		default:
 			k = 21 + tape.Draw(180)
+			if tape.Chance(15) {
+				k = 200 - tape.Draw(2) // the upper end of the quantified range
+			}
 		}
 		entries = c20GenEntries(tape, k, false)
 		plain, ends = c20Doc(tape, entries, tape.Chance(20))
